@@ -40,8 +40,9 @@ MANIFEST = {
                   "that partition eids and qids, are square, block-lower-triangular (an equation of a block involves only "
                   "quantities of that block and earlier blocks) and each has a perfect matching; the prefetch recursion's fuel "
                   "is proved sufficient.  For a Sequential model with distinct LHS names: sequentialize returns an order that "
-                  "is a permutation and causal, finds one whenever one exists (complete), and otherwise fails with the model "
-                  "unchanged; proved for both values of the generated flag 'sequentialize_strictly raises'.",
+                  "is a permutation and causal, finds one whenever one exists (complete), raises exactly when none exists and then "
+                  "leaves the model unchanged; is_sequential is True exactly when the current order is causal; proved for both "
+                  "values of the generated flag 'sequentialize_strictly raises'.",
     "level_note": "Trusted: Coq kernel + vm_compute; translator/blazer.py; harness (argsort recording, generators, comparison). "
                   "No axioms. Modelled not verified: numpy indexing/delete/sum semantics (tied by exhaustive correspondence "
                   "on all matrices up to 3x3 / 4x4 and random 5..40), Python object mutation order (checked by translator + harness).",
